@@ -605,7 +605,7 @@ func (fr *Frame) enterLoop(li *loopInfo, edges []edge) (*State, string) {
 	}
 	// 3. assume invariant
 	for _, cl := range invs {
-		t := fr.evalClause(cl, li.header, fr.entry, st)
+		t, _ := fr.evalLoopClause(cl, li, st)
 		fx.assert(implies(c, t))
 	}
 	li.headState = st.clone()
@@ -767,6 +767,30 @@ func (fr *Frame) evalClause(cl *Clause, h *ssa.BasicBlock, pre, post *State) (re
 	return ev.evalBool(cl.Expr)
 }
 
+// evalLoopClause: a loop invariant or loop assert that no longer evaluates against the code (it names a local
+// the loop does not have any more) is reported once as an undecided obligation of kind "spec" and left out, so
+// that the rest of the function - in particular its safety obligations - is still generated and decided.
+func (fr *Frame) evalLoopClause(cl *Clause, li *loopInfo, st *State) (t string, ok bool) {
+	defer func() {
+		if r := recover(); r != nil {
+			se, isSpec := r.(specErr)
+			if !isSpec {
+				panic(r)
+			}
+			if fr.fx.badClauses == nil {
+				fr.fx.badClauses = map[*Clause]bool{}
+			}
+			if !fr.fx.badClauses[cl] {
+				fr.fx.badClauses[cl] = true
+				o := fr.fx.obligeNamed(fmt.Sprintf("%s#spec@loop%d", fr.key, li.ord), "spec", cl.Tags, "true", "false", cl.Src, cl.Text)
+				o.SpecErr = "the clause does not evaluate against the current code: " + se.msg
+			}
+			t, ok = "true", false
+		}
+	}()
+	return fr.evalClause(cl, li.header, fr.entry, st), true
+}
+
 func (fr *Frame) env(pre, post *State) *Env {
 	ev := &Env{fx: fr.fx, vars: map[string]Val{}, pre: pre, post: post, cur: post, frame: fr}
 	if fr.fn.Pkg != nil {
@@ -782,7 +806,10 @@ func (fr *Frame) checkInv(cl *Clause, li *loopInfo, st *State, cond string, kind
 	if cl.Kind == "ginv" {
 		// only re-check if something relevant may have changed: always check (cheap)
 	}
-	t := fr.evalClause(cl, li.header, fr.entry, st)
+	t, ok := fr.evalLoopClause(cl, li, st)
+	if !ok {
+		return
+	}
 	base := fmt.Sprintf("%s#%s@loop%d", fr.key, kind, li.ord)
 	if cl.Kind == "ginv" {
 		base = fmt.Sprintf("%s#ginv-%s@loop%d", fr.key, kind, li.ord)
